@@ -1,4 +1,4 @@
-import AfkakProofs.Consumer.B_C14e
+import Afkak.Consumer
 /-!
 # C02, liveness half (1): "a running consumer is never stuck" - definitions, the events `Enabled` speaks of are
 really accepted, the full-strength statement `C02_never_stuck` and its COUNTEREXAMPLE.
@@ -13,10 +13,13 @@ reply that arrives while the processor's result is pending is parked behind `_ms
 raises (ChecksumError, a codec error: `Tail.raise`) the exception ends up as the unhandled result of the fired
 `_msg_block_d` instead of reaching `_handle_fetch_error` (which is an errback of the REQUEST Deferred): no retry is
 scheduled, no request is outstanding, the start Deferred never fires.  `c02_never_stuck_counterexample`.
-The partial theorem (`A5_Progress3.lean`) excludes exactly that: no fetch reply whose iteration raises.
+The partial theorem (`c02_never_stuck_partial`, `A5_Progress11.lean`) excludes exactly that: no fetch reply whose
+iteration raises.  Replayed on the real code (harness.lib.consumer_run, scenario: start 0; fetchDone 0 ok 0:1 end (processor
+returns a Deferred); retryFire; fetchDone 1 ok 1:2 raise:other:7; procDone ok): [1:2] is delivered, then no timer, no
+request, the start Deferred never fires.
 -/
 namespace Afkak.Proofs.Consumer.L
-open Afkak.Consumer Afkak.Monitor Afkak.Consts Afkak.Proofs.Consumer
+open Afkak.Consumer
 
 /-- the consumer runs: started, the start Deferred still pending, not stopping, not shutting down, not crashed -/
 def Running (s : St) : Bool := !s.crashed && s.startD == .pending && !s.shuttingDown && !s.stopping
